@@ -148,7 +148,10 @@ class GroupAdditivityScheme(Scheme):
         groups = self._AssignGroup(mol)
         descriptors = self._AssignDescriptor(mol, clean_mol)
         all_descriptors = groups.copy()
-        all_descriptors.update(descriptors)
+        # a correction descriptor may carry the same name as a group: add
+        # its count instead of replacing the group's
+        for name, count in descriptors.items():
+            all_descriptors[name] += count
         return all_descriptors
 
     def _AssignCenterPattern(self, mol, debug=0):
